@@ -54,8 +54,13 @@ class ObsError(Exception):
         self.exc = exc
 
 
+HEARTBEAT = None      # set by run_cases: long observation loops of the monitors are progress, not a hang
+
+
 def observe(v):
     """v: AnsiString or AnsiStr (anything with base_str / ansi_settings_at)."""
+    if HEARTBEAT is not None:
+        HEARTBEAT()
     try:
         text = v.base_str
         objs = [v.ansi_settings_at(i) for i in range(len(text))]
